@@ -36,6 +36,9 @@ class MpmcbEngine(Engine):
         return [
             "2 a %s mr 10 1 po 10 100 cs 1 ts 0 po 10 100" % F,                                  # seeded C04-1: pending recv future outlives close
             "2 a %s cl 1 2 mr 10 1 po 10 100 cs 1 dr 2 ts 0 ms 11 0 po 11 101" % F,
+            # seeded C03-3: more parked receivers than the (non power of two) capacity, then a burst of sends
+            "3 a %s cl 1 2 cl 1 3 cl 1 4 mr 10 1 mr 11 2 mr 12 3 mr 13 4 po 10 100 po 11 101 po 12 102 po 13 103 ts 0 ts 0 ts 0 ts 0 ob 0 ts 0" % F,
+            "5 a %s cl 1 2 cl 1 3 cl 1 4 cl 1 5 cl 1 6 cl 1 7 mr 10 1 mr 11 2 mr 12 3 mr 13 4 mr 14 5 mr 15 6 mr 16 7 po 10 100 po 11 101 po 12 102 po 13 103 po 14 104 po 15 105 po 16 106 tsb 0 8 ob 0" % F,
             # seeded C06-2: a cancelled, already-notified send future must pass the freed slot on (capacity >= 2)
             "2 a %s ts 0 ts 0 cl 0 2 ms 10 0 ms 11 2 po 10 100 po 11 101 tr 1 df 10 ob 0 po 11 101" % F,
             "3 a %s ts 0 ts 0 ts 0 cl 0 2 ms 10 0 ms 11 2 po 10 100 po 11 101 tr 1 df 10 ob 0 po 11 101 tr 1" % F,
@@ -78,7 +81,22 @@ class MpmcbEngine(Engine):
         if kind == "a" and rng.chance(1, 4):
             # scripted prologue: a pending future outlives the close() of the handle it was created from
             # (its waiter entry is still queued), then every form is tried against that state
-            if rng.chance(2, 3):
+            if rng.chance(1, 4):
+                k = cap + 1 + rng.below(2)
+                hs = [1]
+                for _ in range(k - 1):
+                    toks += ["cl", "1", str(nh)]
+                    H[nh] = [False, True, True]
+                    hs.append(nh)
+                    nh += 1
+                for i, h in enumerate(hs):
+                    toks += ["mr", str(nf), str(h), "po", str(nf), str(100 + i)]
+                    Fu[nf] = [True, True, h]
+                    nf += 1
+                for _ in range(k):
+                    toks += ["ts", "0"]
+                toks += ["ob", "0"]
+            elif rng.chance(2, 3):
                 extra = []
                 if rng.chance(1, 3):
                     toks += ["cl", "1", str(nh)]
